@@ -11,6 +11,8 @@ import Postcard.Props.C02
 #print axioms Postcard.seq_known_len
 #print axioms Postcard.emit_seq_header
 #print axioms Postcard.collect_str_eq
+#print axioms Postcard.collect_unknown_refused
+#print axioms Postcard.collect_exact
 #print axioms Postcard.encVarint_eq_spec
 #print axioms Postcard.varint_minimal
 #print axioms Postcard.permitted_canonical
